@@ -131,10 +131,10 @@ func propSpecs() map[string]*PropSpec {
 	}
 	add(&PropSpec{
 		ID: "C11", Title: "tree traversal reaches every node exactly once and never fails", OwnsPanic: true,
-		Quick:    append(append(tokRuns("H_C11", 5, 0), seeds("H_C11seed", 1)...), c11deep(48, 100)...),
-		Thorough: append(append(append(tokRuns("H_C11", 6, 0), seeds("H_C11seed", 1)...), seeds("H_C11seed", 2)...), c11deep(128, 300)...),
+		Quick:    append(append(append(tokRuns("H_C11", 5, 0), seeds("H_C11seed", 1)...), rs("H_C11seed", 21, 1)), c11deep(48, 100)...),
+		Thorough: append(append(append(append(tokRuns("H_C11", 6, 0), seeds("H_C11seed", 1)...), seeds("H_C11seed", 2)...), rs("H_C11seed", 21, 1), rs("H_C11seed", 21, 2)), c11deep(128, 300)...),
 		Covers:   []string{"accepted", "walk-checked", "skip-checked", "history-checked", "deep-walk"},
-		Bounds: map[string]string{"quick": "all accepted token sequences of length <= 5 over the full vocabulary; 21 seed programs with one arbitrary corruption; the skipped node index is arbitrary; after every traversal abandoned by a panicking visitor (at the same arbitrary index) the next traversal visits the same nodes; 14 deep program families at nesting 48 and 7 wide ones (lists of 100 arguments / values / conditions / columns / operators) with two arbitrary tokens inside",
+		Bounds: map[string]string{"quick": "all accepted token sequences of length <= 5 over the full vocabulary; 21 seed programs and one with parentheses directly inside every bracket kind, each with one arbitrary corruption; the skipped node index is arbitrary; after every traversal abandoned by a panicking visitor (at the same arbitrary index) the next traversal visits the same nodes; 14 deep program families at nesting 48 and 7 wide ones (lists of 100 arguments / values / conditions / columns / operators) with two arbitrary tokens inside",
 			"thorough": "length <= 6; seeds with one and two corruptions"},
 		Outside: []string{"trees deeper or wider than the listed families produce"},
 		Stubs:   []string{tokStub},
